@@ -188,7 +188,11 @@ def keyof(v):
         return v.key()
     if isinstance(v, np.ndarray):
         return ('arr', v.shape, tuple(keyof(x) for x in v.ravel()))
-    if isinstance(v, (int, float, str, bool, type(None), Fraction)):
+    if isinstance(v, (int, float, Fraction)) and not isinstance(v, bool):
+        return Rat.lift(v).key()
+    if isinstance(v, np.generic):
+        return keyof(v.item())
+    if isinstance(v, (str, bool, type(None))):
         return ('c', repr(v))
     if isinstance(v, (tuple, list)):
         return ('t', tuple(keyof(x) for x in v))
